@@ -22,7 +22,7 @@ const ChunkSize = 1 << 20
 // Blob is one element of the content universe of a script.
 type Blob struct {
 	ID        int    `json:"id"`   // model name, >= 1; sha512 blobs have ids 1000..1999 (model: algorithm = id / 1000)
-	Alg       string `json:"alg,omitempty"` // "" = sha256, "sha512"
+	Alg       string `json:"alg,omitempty"` // "" = sha256, "sha512" (ids 1000..), "sha384" (ids 2000..)
 	Kind      string `json:"kind"` // "raw" | "manifest" | "badmanifest" (manifest media type, bytes that are not JSON)
 	Size      int    `json:"size"` // raw: number of bytes
 	Fill      uint64 `json:"fill"` // raw: PRNG seed of the bytes
@@ -64,6 +64,10 @@ func (b Blob) BadContent() []byte {
 func (b Blob) Hex() string {
 	if b.Alg == "sha512" {
 		h := sha512.Sum512(b.Content())
+		return hex.EncodeToString(h[:])
+	}
+	if b.Alg == "sha384" {
+		h := sha512.Sum384(b.Content())
 		return hex.EncodeToString(h[:])
 	}
 	h := sha256.Sum256(b.Content())
